@@ -801,14 +801,23 @@ func runCase(c Case, token string) (out Out) {
 	var parked []*flight // handlers still parked although their request has been answered
 	for i := 0; i < len(c.Reqs); i++ {
 		flag := hasTok(flagOf(c.Reqs[i]), "c")
+		free := false
+		if flag == "" {
+			// f<n>: a free-running batch — all requests at once, no gates (the -race family)
+			flag = hasTok(flagOf(c.Reqs[i]), "f")
+			free = flag != ""
+		}
 		hold := hasTok(flagOf(c.Reqs[i]), "hold") != ""
 		switch {
 		case flag != "":
 			// a batch of concurrent requests: every handler reads its variables, waits until all
 			// requests of the batch are inside their handler (or answered), and reads them again
 			gate := make(chan struct{})
+			if free {
+				gate = nil
+			}
 			var batch []*flight
-			for i < len(c.Reqs) && hasTok(flagOf(c.Reqs[i]), "c") == flag {
+			for i < len(c.Reqs) && hasTok(flagOf(c.Reqs[i]), flag[:1]) == flag {
 				batch = append(batch, prepare(c.Reqs[i], gate))
 				i++
 			}
@@ -819,14 +828,16 @@ func runCase(c Case, token string) (out Out) {
 				}
 			}
 			for _, f := range batch {
-				if !f.skip {
+				if !f.skip && !free {
 					select {
 					case <-f.ctl.entered:
 					case <-f.returned:
 					}
 				}
 			}
-			close(gate)
+			if !free {
+				close(gate)
+			}
 			for _, f := range batch {
 				if !f.skip {
 					<-f.returned
